@@ -1,4 +1,4 @@
-import FastorModel.Proofs.ViewsRead
+import FastorModel.Proofs.ViewsOdo
 /-
 # C04 — Reading through an index or a slice returns exactly the selected elements
 
@@ -24,10 +24,9 @@ specialised constructors; every evaluator returns the *parent offsets* it reads,
   position of `D` is stored to, and the last store to `p ∈ D` is `f p` — here `f p` is the parent offset
   whose element lands at result position `p`.
 
-Not in these theorems (tied by the correspondence runs only): the odometer constructors of rank >= 3
-(`odoLoop`; their per-step evaluators `teval_s` / `teval` are covered by `tevalS_correct`,
-`tevalV_row_routes`, `tevalV_gather_route`), the `iseq` loops, and that the real `SIMDVector` load / `set` / store
-are lane-wise (C08; here the symbolic runs use an ideal vector and the real types run against the oracle).
+Not in these theorems (tied by the correspondence runs only): the `iseq` loops, expressions mixing several
+views (each leaf is covered; the node-wise combination is C02), and that the real `SIMDVector` load / `set` /
+store are lane-wise (C08; here the symbolic runs use an ideal vector and the real types run against the oracle).
 -/
 namespace Fastor.C04
 open Fastor Fastor.Views
@@ -56,9 +55,9 @@ example : (Enc.idx (-2)).Adm 7 := by decide
 example : (Enc.range 1 8 3).Adm 9 := by decide
 example : (Enc.fromEnd 4 1 2).Adm 9 := by decide
 
-/-- `fix<i>` for `i < -1` is *not* an admissible spelling: `fix<-2>` = `fseq<-2,-1>` is read as
-    "both ends from the end" and selects the last element of a 7-element axis, not element 5
-    (the dynamic integer form was repaired in `seq(int)`; this one is outside `Enc.Adm` and is not judged) -/
+/-- why `seq(int i)` and `fix<i>` must spell `i < -1` as `[i-1, i)` (`Seq.ofInt`): the naive `[i, i+1)` is read
+    as "both ends from the end" and `fseq<-2,-1>` selects the last element of a 7-element axis, not element 5.
+    (`seq(int)` was repaired earlier; `fix<i>` was still `fseq<i,i+1>` and is repaired on branch fix/c04.) -/
 theorem fix_below_minus_one_counterexample : toPositive 7 ⟨-2, -1, 1⟩ = ⟨6, 7, 1⟩ := by decide
 
 /-- **scalar indexing, all ranks**: for indices in `[-d_k, d_k)` the offset computed by
@@ -116,13 +115,26 @@ theorem tevalV_row_routes (v : View) (hwf : v.WF) (V : Nat) (as : List Nat) (hl 
     (v.tevalV V as)[l]? = some (specOff v.pdims v.axs (bumpLast as l)) :=
   Views.tevalV_lane_row v hwf V as hl hne l hlV hr
 
-/-- the per-lane gather route of `teval` evaluates the `teval_s` index sum at the multi-index reached by
-    `l` unit odometer steps (`_partial`: that this multi-index is the one at row-major position
-    `rowMajor as + l` is checked by the correspondence runs, not proved) -/
-theorem tevalV_gather_route_partial (v : View) (V : Nat) (as : List Nat) (l : Nat) (hlV : l < V)
-    (hr : v.route V = .gather) :
-    (v.tevalV V as)[l]? = some (flatIdx (prods v.pdims) v.axs (odoIter (vdims v.axs) l as)) :=
-  Views.tevalV_lane_gather v V as l hlV hr
+/-- **`teval`, per-lane gather route** (last extent not a multiple of the width): lane `l` reads the
+    documented element at row-major position `rowMajor as + l` of the slice, continuing into the following
+    rows — `l` steps of the odometer `as_[jt] += 1; if (as_[jt] < dims[jt]) break; else as_[jt] = 0` -/
+theorem tevalV_gather_route (v : View) (hwf : v.WF) (V : Nat) (as : List Nat) (hne : v.axs ≠ [])
+    (has : InRange (vdims v.axs) as) (l : Nat) (hlV : l < V) (hr : v.route V = .gather)
+    (hfit : rowMajor (vdims v.axs) as + l < v.size) :
+    ∃ j, InRange (vdims v.axs) j ∧ rowMajor (vdims v.axs) j = rowMajor (vdims v.axs) as + l ∧
+      (v.tevalV V as)[l]? = some (specOff v.pdims v.axs j) :=
+  Views.tevalV_lane_gather_full v hwf V as hne has l hlV hr hfit
+
+/-- **one odometer step** (shared by the gather route and the constructors of rank >= 3): the row-major
+    position advances by the increment (1, or `V` on the last axis when it is aligned), or the odometer runs
+    over exactly at the end -/
+theorem odometer_step (inc : Nat) (hinc : 0 < inc) (ds as : List Nat) (h : InRange ds as) (hf : LastFits ds as inc) :
+    InRange ds (odoInc ds as inc).1 ∧
+    (rowMajor ds as + inc < lprod ds →
+      (odoInc ds as inc).2 = false ∧ rowMajor ds (odoInc ds as inc).1 = rowMajor ds as + inc) ∧
+    (¬ rowMajor ds as + inc < lprod ds →
+      (odoInc ds as inc).2 = true ∧ rowMajor ds (odoInc ds as inc).1 = 0 ∧ rowMajor ds as + inc = lprod ds) :=
+  Views.odoInc_spec inc hinc ds as h hf
 
 /-- **consumer `trivial_assign`** (constructor of a tensor from a 1-D view; `+=`-family and flat
     expressions for every view): for every size and width the stores cover exactly the positions below
@@ -146,5 +158,29 @@ theorem ctor2_correct (cls : Cls) (h2 : is2D cls) (m n : Nat) (a0 a1 : Ax) (V M 
 
 example : applyWrites ((View.mk .dyn2 [5, 9] [⟨1, 2, 2⟩, ⟨2, 1, 5⟩]).ctor2Writes 4 2 5) (fun _ => 0) 7
     = specOff [5, 9] [⟨1, 2, 2⟩, ⟨2, 1, 5⟩] [1, 2] := by decide
+
+/-- **consumer: the odometer constructors of rank >= 3** (`Tensor(const TensorViewExpr<…,DIMS>&)`,
+    `Tensor(const TensorFixedViewExprnD&)`: vectorised with `teval` when the view is (strided-)vectorisable,
+    scalar with `teval_s` otherwise; const views and expressions: always scalar): for every rank, extents and
+    width, exactly the positions below `size()` are stored to, and position `rowMajor dims j` receives the
+    documented element `j` of the slice -/
+theorem ctorN_correct (v : View) (hwf : v.WF) (hcls : v.cls = .dynN ∨ v.cls = .fixN) (hne : v.axs ≠ [])
+    (hpos : ∀ d ∈ vdims v.axs, 0 < d) (V : Nat) (hV : 0 < V) (vecAllowed : Bool) :
+    (∀ j, InRange (vdims v.axs) j →
+      lastWrite (v.ctorN V vecAllowed (vdims v.axs)).writes (rowMajor (vdims v.axs) j) = some (specOff v.pdims v.axs j)) ∧
+    (∀ p, v.size ≤ p → lastWrite (v.ctorN V vecAllowed (vdims v.axs)).writes p = none) := by
+  have h := Views.ctorN_exact v hwf hcls hne hpos V hV vecAllowed
+  constructor
+  · intro j hj
+    have hlt : rowMajor (vdims v.axs) j < v.size := Views.rowMajor_lt hj
+    have := (h _).1 hlt
+    rw [this]
+    show some (specOff v.pdims v.axs (unflat (vdims v.axs) (lprod (vdims v.axs)) (rowMajor (vdims v.axs) j))) = _
+    rw [Views.unflat_rowMajor hj]
+  · intro p hp
+    exact (h p).2 (by omega)
+
+example : lastWrite ((View.mk .dynN [3, 4, 9] [⟨1, 1, 2⟩, ⟨0, 2, 2⟩, ⟨0, 2, 4⟩]).ctorN 4 true [2, 2, 4]).writes 13
+    = some (specOff [3, 4, 9] [⟨1, 1, 2⟩, ⟨0, 2, 2⟩, ⟨0, 2, 4⟩] [1, 1, 1]) := by decide
 
 end Fastor.C04
